@@ -748,6 +748,19 @@ impl Check for C13 {
         let fixed = t.flag();
         let plant_reserved = t.chance(40);
         let cfg = gen_cfg(&mut t, &CfgOpts { fixed_prefix: fixed, rich: true });
+        // one configuration in ten names a replacement that is not an identifier (nothing validates `dst`)
+        let mut cfg = cfg;
+        if t.chance(25) {
+            let bad = *t.pick(&["my-trim", "1x", "a.b", "", "x y", "class", "__proto__", "\u{e9}", "a: 'a string literal longer than ten', plusOperator", "noop }; throw 1; ({ x", "`", "/*"]);
+            let mut j = cfg.json.clone();
+            if let Some(ms) = j["csiMethods"].as_array_mut() {
+                if !ms.is_empty() {
+                    let i = t.below(ms.len());
+                    ms[i]["dst"] = json!(bad);
+                }
+            }
+            cfg = crate::cfggen::info_from_json(&j);
+        }
         let kind = t.weighted(&[3, 4, 2]);
         let src = match kind {
             0 => {
